@@ -167,6 +167,9 @@ func (s *DDSketch) GetValueAtQuantile(quantile float64) (float64, error) {
 	if quantile < 0 || quantile > 1 {
 		return math.NaN(), errors.New("The quantile must be between 0 and 1.")
 	}
+	if math.IsNaN(quantile) {
+		return math.NaN(), errors.New("The quantile must be between 0 and 1.")
+	}
 
 	count := s.GetCount()
 	if count == 0 {
